@@ -17,6 +17,12 @@ use std::cell::RefCell;
 //
 thread_local!(static MANAGER : RefCell<ReManager> = RefCell::new(ReManager::new()));
 
+/// Run a closure on this thread's global manager (feature `verif`)
+#[cfg(feature = "verif")]
+pub fn verif_with_manager<R>(f: impl FnOnce(&mut ReManager) -> R) -> R {
+    MANAGER.with(|m| f(&mut m.borrow_mut()))
+}
+
 ///
 /// Singleton language
 ///
